@@ -421,6 +421,12 @@ def eval_term(t, env):
             return a + b
         if op in ('Sub', 'SubWithOverflow'):
             return a - b
+        if op in ('Mul', 'MulWithOverflow'):
+            return a * b
+        if op == 'Shl' and 0 <= b < 128:
+            return a << b
+        if op == 'Shr' and 0 <= b < 128:
+            return a >> b
     if k == 'discr' and t[1][0] == 'try':
         return 0   # `?` assumed to continue
     raise CannotEval(show(t))
